@@ -297,6 +297,17 @@ def corpus():
     B('alloc-post@1.13', 'POST', '/allocations', mv='1.13', body={
         K(3): {'allocations': {P(4): {'resources': {'VCPU': 1}}},
                'project_id': 'proj3', 'user_id': 'user3'}})
+    # the 1.28-1.33 and 1.34-1.37 per-consumer schemas (two consumers, the first one new)
+    B('alloc-post@1.28', 'POST', '/allocations', mv='1.28', body={
+        K(3): {'allocations': {P(4): {'resources': {'VCPU': 1}}}, 'consumer_generation': None,
+               'project_id': 'proj3', 'user_id': 'user3'},
+        K(1): {'allocations': alloc_dict, 'consumer_generation': 1, 'project_id': 'proj1',
+               'user_id': 'user1'}})
+    B('alloc-post@1.34', 'POST', '/allocations', mv='1.34', body={
+        K(3): {'allocations': {P(4): {'resources': {'VCPU': 1}}}, 'consumer_generation': None,
+               'project_id': 'proj3', 'user_id': 'user3', 'mappings': {'': [P(4)]}},
+        K(1): {'allocations': alloc_dict, 'consumer_generation': 1, 'project_id': 'proj1',
+               'user_id': 'user1'}})
     B('alloc-get', 'GET', '/allocations/{consumer_uuid}', [K(1)])
     B('alloc-put', 'PUT', '/allocations/{consumer_uuid}', [K(1)], body={
         'allocations': alloc_dict, 'consumer_generation': 1, 'project_id': 'proj1',
